@@ -1,4 +1,5 @@
 import EpdVerif.Ctrl.Uc
+import EpdVerif.Lemmas.UcFill
 import EpdVerif.Drivers.Epd4in2
 /-!
 # C06 (i), (iv) for SYMBOLIC windows — the window the controller decodes is the requested one
@@ -76,5 +77,135 @@ theorem epd4in2_part_window_fails_at_256 :
 /-- non-vacuity of the hypotheses: a window in the middle of the panel -/
 example : (136 % 8 = 0 ∧ 64 % 8 = 0 ∧ 0 < 64 ∧ 0 < 10 ∧ 136 + 64 ≤ 400 ∧ 290 + 10 ≤ 300 ∧ 136 < 256) ∧
     (Uc.por 400 300 1 9 false).asleep = false ∧ (Uc.por 400 300 1 9 false).winFmt = 9 := by decide
+
+/-- old-frame half of a quick-refresh pair: the controller stays in partial mode for the new-frame half -/
+theorem uc9_partial_seq_open (u : Uc) (a a' b b' c c' d d' e : UInt8) (buf : List UInt8)
+    (hu : u.asleep = false) (hf : u.winFmt = 9) (h14 : u.has14 = false) :
+    (u.run [Blk.c 0x91 [], .c 0x90 [a, a', b, b', c, c', d, d', e], .c 0x10 buf]).lastWin
+      = some (word a a' / 8 * 8, word c c', word b b' / 8 * 8 + 7, word d d') ∧
+    (u.run [Blk.c 0x91 [], .c 0x90 [a, a', b, b', c, c', d, d', e], .c 0x10 buf]).partialOn = true := by
+  simp (config := {decide := true}) only [Uc.run, List.foldl, Uc.feed, Uc.regStep, hu, hf, h14, Uc.dtm, Uc.lastWin, ↓reduceIte,
+    Bool.false_eq_true, false_and, List.head?_cons, Option.map_some]
+
+/-- windowed clear: resolution block, then both planes inside the window -/
+theorem uc9_partial_seq_clear (u : Uc) (r : List UInt8) (a a' b b' c c' d d' e : UInt8) (b1 b2 : List UInt8)
+    (hu : u.asleep = false) (hf : u.winFmt = 9) (h14 : u.has14 = false) :
+    ((u.run [Blk.c 0x61 r, .c 0x91 [], .c 0x90 [a, a', b, b', c, c', d, d', e], .c 0x10 b1, .c 0x13 b2, .c 0x92 []]).epis.take 2).map (·.win)
+      = [(word a a' / 8 * 8, word c c', word b b' / 8 * 8 + 7, word d d'), (word a a' / 8 * 8, word c c', word b b' / 8 * 8 + 7, word d d')] ∧
+    (u.run [Blk.c 0x61 r, .c 0x91 [], .c 0x90 [a, a', b, b', c, c', d, d', e], .c 0x10 b1, .c 0x13 b2, .c 0x92 []]).partialOn = false := by
+  simp (config := {decide := true}) only [Uc.run, List.foldl, Uc.feed, Uc.regStep, hu, hf, h14, Uc.dtm, ↓reduceIte,
+    Bool.false_eq_true, false_and, List.take, List.map]
+
+open Drivers.Epd4in2 in
+theorem epd4in2_pold_blocks (f : Feat) (d : DState) (b : Bytes) (x y w h : Nat) (hw0 : 0 < w) (hh0 : 0 < h) :
+    blocksOf ((prog f d (.pold b x y w h)).getD []) =
+      [.c 0x91 [], .c 0x90 [shr8 x 8, u8 (x &&& 0xf8), shr8 ((x &&& 0xf8) + w - 1) 8, u8 (((x &&& 0xf8) + w - 1) ||| 0x07),
+         shr8 y 8, u8 y, shr8 (y + h - 1) 8, u8 (y + h - 1), 0x01], .c 0x10 (b ++ [])] := by
+  have a1 : decide ((x &&& 0xf8) + w ≥ 1) = true := by simp only [decide_eq_true_eq]; omega
+  have a2 : decide (y + h ≥ 1) = true := by simp only [decide_eq_true_eq]; omega
+  simp only [prog, shiftDisplay, assertA, a1, a2, Option.getD_some, if_true]
+  rfl
+
+open Drivers.Epd4in2 in
+/-- `update_partial_old_frame`: same window, the controller stays in partial mode for `update_partial_new_frame` -/
+theorem epd4in2_pold_window (f : Feat) (d : DState) (b : Bytes) (x y w h : Nat)
+    (hx : x % 8 = 0) (hw : w % 8 = 0) (hw0 : 0 < w) (hh0 : 0 < h)
+    (hxw : x + w ≤ 400) (hyh : y + h ≤ 300) (hx256 : x < 256)
+    (u : Uc) (hu : u.asleep = false) (hf : u.winFmt = 9) (h14 : u.has14 = false) :
+    (u.run (blocksOf ((prog f d (.pold b x y w h)).getD []))).lastWin = some (x, y, x + w - 1, y + h - 1) ∧
+    (u.run (blocksOf ((prog f d (.pold b x y w h)).getD []))).partialOn = true := by
+  have o := or7_id (x + w - 1) (by omega) (by omega)
+  rw [epd4in2_pold_blocks f d b x y w h hw0 hh0, and248_id x hx256 hx, o]
+  have k := uc9_partial_seq_open u (shr8 x 8) (u8 x) (shr8 (x + w - 1) 8) (u8 (x + w - 1))
+    (shr8 y 8) (u8 y) (shr8 (y + h - 1) 8) (u8 (y + h - 1)) 0x01 (b ++ []) hu hf h14
+  rw [word_split x (by omega), word_split (x + w - 1) (by omega), word_split y (by omega),
+    word_split (y + h - 1) (by omega)] at k
+  have e1 : x / 8 * 8 = x := by omega
+  have e2 : (x + w - 1) / 8 * 8 + 7 = x + w - 1 := by omega
+  rw [e1, e2] at k
+  exact k
+
+open Drivers.Epd4in2 in
+theorem epd4in2_pclear_blocks (f : Feat) (d : DState) (x y w h : Nat) (hw0 : 0 < w) (hh0 : 0 < h) :
+    blocksOf ((prog f d (.pclear x y w h)).getD []) =
+      [.c 0x61 [shr8 Gen.Epd4in2.WIDTH 8, u8 Gen.Epd4in2.WIDTH, shr8 Gen.Epd4in2.HEIGHT 8, u8 Gen.Epd4in2.HEIGHT],
+       .c 0x91 [], .c 0x90 [shr8 x 8, u8 (x &&& 0xf8), shr8 ((x &&& 0xf8) + w - 1) 8, u8 (((x &&& 0xf8) + w - 1) ||| 0x07),
+         shr8 y 8, u8 y, shr8 (y + h - 1) 8, u8 (y + h - 1), 0x01],
+       .c 0x10 (List.replicate (w / 8 * h) (byteValue d.bg) ++ []), .c 0x13 (List.replicate (w / 8 * h) (byteValue d.bg) ++ []), .c 0x92 []] := by
+  have a1 : decide ((x &&& 0xf8) + w ≥ 1) = true := by simp only [decide_eq_true_eq]; omega
+  have a2 : decide (y + h ≥ 1) = true := by simp only [decide_eq_true_eq]; omega
+  simp only [prog, shiftDisplay, sendResolution, assertA, a1, a2, Option.getD_some, if_true]
+  rfl
+
+open Drivers.Epd4in2 in
+/-- `clear_partial_frame`: both planes are filled inside the requested window with `w/8*h` bytes each -/
+theorem epd4in2_pclear_window (f : Feat) (d : DState) (x y w h : Nat)
+    (hx : x % 8 = 0) (hw : w % 8 = 0) (hw0 : 0 < w) (hh0 : 0 < h)
+    (hxw : x + w ≤ 400) (hyh : y + h ≤ 300) (hx256 : x < 256)
+    (u : Uc) (hu : u.asleep = false) (hf : u.winFmt = 9) (h14 : u.has14 = false) :
+    ((u.run (blocksOf ((prog f d (.pclear x y w h)).getD []))).epis.take 2).map (·.win)
+      = [(x, y, x + w - 1, y + h - 1), (x, y, x + w - 1, y + h - 1)] ∧
+    (u.run (blocksOf ((prog f d (.pclear x y w h)).getD []))).partialOn = false := by
+  have o := or7_id (x + w - 1) (by omega) (by omega)
+  rw [epd4in2_pclear_blocks f d x y w h hw0 hh0, and248_id x hx256 hx, o]
+  have k := uc9_partial_seq_clear u [shr8 Gen.Epd4in2.WIDTH 8, u8 Gen.Epd4in2.WIDTH, shr8 Gen.Epd4in2.HEIGHT 8, u8 Gen.Epd4in2.HEIGHT]
+    (shr8 x 8) (u8 x) (shr8 (x + w - 1) 8) (u8 (x + w - 1))
+    (shr8 y 8) (u8 y) (shr8 (y + h - 1) 8) (u8 (y + h - 1)) 0x01
+    (List.replicate (w / 8 * h) (byteValue d.bg) ++ []) (List.replicate (w / 8 * h) (byteValue d.bg) ++ []) hu hf h14
+  rw [word_split x (by omega), word_split (x + w - 1) (by omega), word_split y (by omega),
+    word_split (y + h - 1) (by omega)] at k
+  have e1 : x / 8 * 8 = x := by omega
+  have e2 : (x + w - 1) / 8 * 8 + 7 = x + w - 1 := by omega
+  rw [e1, e2] at k
+  exact k
+
+
+/-- the planes after the partial-update sequence: DTM2 is the window store, DTM1 untouched -/
+theorem uc9_partial_seq_planes (u : Uc) (a a' b b' c c' d d' e : UInt8) (buf : List UInt8)
+    (hu : u.asleep = false) (hf : u.winFmt = 9) (h14 : u.has14 = false) :
+    (u.run [Blk.c 0x91 [], .c 0x90 [a, a', b, b', c, c', d, d', e], .c 0x13 buf, .c 0x92 []]).p2
+      = (storeAt (winPos u.stride2 (word a a' / 8) (word b b' / 8 + 1 - word a a' / 8) (word c c') (word d d' + 1 - word c c'))
+          u.p2 buf 0 0).1 ∧
+    (u.run [Blk.c 0x91 [], .c 0x90 [a, a', b, b', c, c', d, d', e], .c 0x13 buf, .c 0x92 []]).p1 = u.p1 ∧
+    ((u.run [Blk.c 0x91 [], .c 0x90 [a, a', b, b', c, c', d, d', e], .c 0x13 buf, .c 0x92 []]).epis.head?.map fun ep => (ep.plane, ep.count, ep.stored))
+      = some (1, buf.length, (storeAt (winPos u.stride2 (word a a' / 8) (word b b' / 8 + 1 - word a a' / 8) (word c c') (word d d' + 1 - word c c'))
+          u.p2 buf 0 0).2) := by
+  simp (config := {decide := true}) only [Uc.run, List.foldl, Uc.feed, Uc.regStep, hu, hf, h14, Uc.dtm, ↓reduceIte,
+    Bool.false_eq_true, List.head?_cons, Option.map_some, Uc.stride2, and_self]
+
+open Drivers.Epd4in2 in
+/-- **C06 (ii), (iii) for epd4in2 `update_partial_frame`, every window**: the buffer's byte `k` is at row
+    `y + k / (w/8)`, byte column `x/8 + k % (w/8)` of the new-image plane, all `w/8*h` bytes are stored
+    exactly once (`count = stored = w/8*h`), every cell outside the window and the whole old-image plane
+    are unchanged -/
+theorem epd4in2_part_content (f : Feat) (d : DState) (b : Bytes) (x y w h : Nat)
+    (hx : x % 8 = 0) (hw : w % 8 = 0) (hw0 : 0 < w) (hh0 : 0 < h)
+    (hxw : x + w ≤ 400) (hyh : y + h ≤ 300) (hx256 : x < 256) (hl : b.length = w / 8 * h)
+    (u : Uc) (hu : u.asleep = false) (hf : u.winFmt = 9) (h14 : u.has14 = false)
+    (hwd : u.width = 400) (hsz : u.p2.size = 50 * 300) :
+    let u' := u.run (blocksOf ((prog f d (.part b x y w h)).getD []))
+    (∀ k (hk : k < b.length), u'.p2[winIdx 50 (x / 8) (w / 8) y k]? = some b[k]) ∧
+    (∀ j, (∀ k, k < w / 8 * h → winIdx 50 (x / 8) (w / 8) y k ≠ j) → u'.p2[j]? = u.p2[j]?) ∧
+    u'.p1 = u.p1 ∧
+    (u'.epis.head?.map fun ep => (ep.plane, ep.count, ep.stored)) = some (1, w / 8 * h, w / 8 * h) := by
+  intro u'
+  have o := or7_id (x + w - 1) (by omega) (by omega)
+  have hb : blocksOf ((prog f d (.part b x y w h)).getD []) = _ := epd4in2_part_blocks f d b x y w h hw0 hh0
+  rw [and248_id x hx256 hx, o, List.append_nil] at hb
+  have k := uc9_partial_seq_planes u (shr8 x 8) (u8 x) (shr8 (x + w - 1) 8) (u8 (x + w - 1))
+    (shr8 y 8) (u8 y) (shr8 (y + h - 1) 8) (u8 (y + h - 1)) 0x01 b hu hf h14
+  rw [word_split x (by omega), word_split (x + w - 1) (by omega), word_split y (by omega),
+    word_split (y + h - 1) (by omega)] at k
+  have s2 : u.stride2 = 50 := by unfold Uc.stride2; rw [hwd]
+  have e1 : (x + w - 1) / 8 + 1 - x / 8 = w / 8 := by omega
+  have e2 : y + h - 1 + 1 - y = h := by omega
+  rw [s2, e1, e2] at k
+  have st := storeAt_window 50 (x / 8) (w / 8) y h u.p2 b (by omega) (by omega) (by rw [hsz]; omega) hl
+  have hu' : u' = u.run [Blk.c 0x91 [], .c 0x90 [shr8 x 8, u8 x, shr8 (x + w - 1) 8, u8 (x + w - 1),
+      shr8 y 8, u8 y, shr8 (y + h - 1) 8, u8 (y + h - 1), 0x01], .c 0x13 b, .c 0x92 []] := by
+    show u.run _ = _
+    rw [hb]
+  rw [hu', k.1, k.2.1, k.2.2, st.1]
+  exact ⟨fun k hk => st.2.2.1 k hk, st.2.2.2, rfl, by rw [hl]⟩
 
 end EpdVerif.Props.C06
